@@ -91,7 +91,10 @@ func c16Case(c *explore.Ctx, s *explore.SubStats, text string, sdl bool) {
 		return
 	}
 	prevOK := false
-	for limit := 0; limit <= n+2; limit++ {
+	for limit := -2; limit <= n+2; limit++ { // negative limits: no input has that few tokens
+		if limit < 0 && n == 0 {
+			continue // no token is ever consumed: nothing for a limit to act on (outside the property's 0 … N+2)
+		}
 		s.Executions++
 		s.Transitions++
 		proj, err, r := c16Parse(text, sdl, limit, false)
@@ -108,6 +111,9 @@ func c16Case(c *explore.Ctx, s *explore.SubStats, text string, sdl bool) {
 		}
 		if limit == 0 {
 			rel = "L=0"
+		}
+		if limit < 0 {
+			rel = "L<0"
 		}
 		switch {
 		case ok && !want:
@@ -128,7 +134,7 @@ func c16Case(c *explore.Ctx, s *explore.SubStats, text string, sdl bool) {
 			}
 			prevOK = ok
 		}
-		if !lexFails && limit != 0 && n > limit && !ok {
+		if !lexFails && limit > 0 && n > limit && !ok {
 			// the failure must be the limit, reached after at most L+1 tokens worth of work
 			s.MaxOf("steps_per_limit_short", r.Steps/int64(limit+2))
 		}
@@ -166,7 +172,11 @@ func c16FamilyCase(c *explore.Ctx, s *explore.SubStats, f *gen.Family, n, limit 
 	for _, sdl := range []bool{false, true} {
 		s.Executions++
 		var err error
-		r := guarded(c16StepBound(limit), c16DepthBound(limit), func() {
+		lb := limit
+		if lb < 0 {
+			lb = 0
+		}
+		r := guarded(c16StepBound(lb), c16DepthBound(lb), func() {
 			src := &ast.Source{Input: text, Name: "f"}
 			if sdl {
 				_, err = parser.ParseSchemaWithLimit(src, limit)
@@ -175,12 +185,12 @@ func c16FamilyCase(c *explore.Ctx, s *explore.SubStats, f *gen.Family, n, limit 
 			}
 		})
 		s.Validated++
-		s.MaxOf("steps_per_limit_x1", r.Steps/int64(limit+2))
-		s.MaxOf("depth_per_limit_x100", int64(r.MaxDepth)*100/int64(limit+2))
+		s.MaxOf("steps_per_limit_x1", r.Steps/int64(lb+2))
+		s.MaxOf("depth_per_limit_x100", int64(r.MaxDepth)*100/int64(lb+2))
 		entry := map[bool]string{false: "query", true: "schema"}[sdl]
 		if r.Panicked {
 			if r.Budget {
-				bad("limit/work-not-bounded family="+f.Name+" entry="+entry, fmt.Sprintf("%s with limit %d on %d bytes (≥ %d tokens): %s; bound: %d steps, depth %d — independent of the input size", entry, limit, len(text), n, r.PanicVal, c16StepBound(limit), c16DepthBound(limit)))
+				bad("limit/work-not-bounded family="+f.Name+" entry="+entry, fmt.Sprintf("%s with limit %d on %d bytes (≥ %d tokens): %s; bound: %d steps, depth %d — independent of the input size", entry, limit, len(text), n, r.PanicVal, c16StepBound(lb), c16DepthBound(lb)))
 			} else {
 				bad("panic site="+r.Site, r.PanicVal+"\n"+trimStack(r.Stack))
 			}
@@ -197,7 +207,7 @@ func c16FamilyCase(c *explore.Ctx, s *explore.SubStats, f *gen.Family, n, limit 
 
 func runC16(c *explore.Ctx) {
 	seqs := func(name string, alpha []gen.Tok, sdl bool, n int) {
-		s := c.Sub(name, fmt.Sprintf("every token sequence of ≤ %d tokens over %d token classes (comments and an invalid token included) × every limit 0 … N+2", n, len(alpha)),
+		s := c.Sub(name, fmt.Sprintf("every token sequence of ≤ %d tokens over %d token classes (comments and an invalid token included) × every limit −2 … N+2", n, len(alpha)),
 			"limited parse succeeds ⇔ unlimited succeeds ∧ (L = 0 ∨ N ≤ L), with N counted by the reference lexer (comments included); identical tree on success; monotone in L", "sequences the unlimited parser accepts")
 		if s == nil {
 			return
@@ -219,7 +229,7 @@ func runC16(c *explore.Ctx) {
 
 	// valid sentences (longer than the raw sweep reaches) with comments at every gap
 	sent := func(name string, side *gramSide, sdl bool, n int) {
-		s := c.Sub(name, fmt.Sprintf("every sentence of ≤ %d tokens of the %s grammar over the core alphabet, plain and with a comment inserted at every single gap, × every limit 0 … N+2", n, side.name),
+		s := c.Sub(name, fmt.Sprintf("every sentence of ≤ %d tokens of the %s grammar over the core alphabet, plain and with a comment inserted at every single gap, × every limit −2 … N+2", n, side.name),
 			"as above (exactness at the boundary N = L, N = L+1 with comments counted)", "every case")
 		if s == nil {
 			return
@@ -251,7 +261,7 @@ func runC16(c *explore.Ctx) {
 	sent("sentences-sdl", sdlSide, true, c.Pick(6, 7))
 
 	// several sources: the limit applies to each source
-	s0 := c.Sub("limits-sources", "every ordered pair of type-system sentences of ≤ 3 tokens (core alphabet; schema definitions / extensions one token longer) as two sources × every assignment of the built-in flag × every limit 0 … max(N₁,N₂)+1 through ParseSchemasWithLimit",
+	s0 := c.Sub("limits-sources", "every ordered pair of type-system sentences of ≤ 3 tokens (core alphabet; schema definitions / extensions one token longer) as two sources × every assignment of the built-in flag × every limit −1 … max(N₁,N₂)+1 through ParseSchemasWithLimit",
 		"succeeds ⇔ every source parses without a limit ∧ (L = 0 ∨ every source has at most L tokens); identical tree on success", "pairs that parse")
 	if s0 != nil {
 		t0 := time.Now()
@@ -284,7 +294,7 @@ func runC16(c *explore.Ctx) {
 					if nb > max {
 						max = nb
 					}
-					for limit := 0; limit <= max+1; limit++ {
+					for limit := -1; limit <= max+1; limit++ {
 						s0.Executions++
 						s0.Transitions++
 						d, err := parser.ParseSchemasWithLimit(limit, srcs()...)
@@ -359,7 +369,7 @@ func runC16(c *explore.Ctx) {
 	}
 
 	// size families under small limits: work must not depend on the input size
-	s := c.Sub("families", fmt.Sprintf("%d size families with short tokens (nesting of [ { ( and selection sets, token / comment / definition floods) × n = 2^k up to %s × limits {1, 16, 1024, 65536} (only n > limit), both parsers", len(gen.ParseFamilies)-len(c16Excluded), map[bool]string{false: "1 MiB", true: "8 MiB"}[c.Thorough()]),
+	s := c.Sub("families", fmt.Sprintf("%d size families with short tokens (nesting of [ { ( and selection sets, token / comment / definition floods) × n = 2^k up to %s × limits {−1, 1, 16, 1024, 65536} (only n > limit), both parsers", len(gen.ParseFamilies)-len(c16Excluded), map[bool]string{false: "1 MiB", true: "8 MiB"}[c.Thorough()]),
 		"the limited parse fails, within 4000+600·L steps and call depth 200+70·L — bounds that do not mention the input size (a parser that does work before checking the limit exceeds them as n doubles)", "every case")
 	if s == nil {
 		return
@@ -375,7 +385,7 @@ func runC16(c *explore.Ctx) {
 		if _, ex := c16Excluded[f.Name]; ex {
 			continue
 		}
-		for _, limit := range []int{1, 16, 1024, 65536} {
+		for _, limit := range []int{-1, 1, 16, 1024, 65536} {
 			for n := 1; ; n *= 2 {
 				if len(f.Make(1))*n > maxBytes*2 || len(f.Make(n)) > maxBytes {
 					break
